@@ -249,9 +249,9 @@ def formulae(ctx, prog, R):
                   "x = %s" % x, node=fi.node)
 
 
-def sexagesimal(ctx, prog, mod):
+def sexagesimal(ctx, prog, mod, R4="C17-R4", R5="C17-R5"):
     # ---------------------------------------------------------------- R4
-    ctx.rule("C17-R4", "every fixed-decimal sexagesimal field is split from "
+    ctx.rule(R4, "every fixed-decimal sexagesimal field is split from "
              "a total that was quantised (round) first, or the carry is "
              "handled explicitly")
     n4 = 0
@@ -287,14 +287,14 @@ def sexagesimal(ctx, prog, mod):
                         59 <= cc.value <= 60
                         for cc in ast.walk(x))
                     for x in walk_no_nested(fi.node))
-                ctx.check("C17-R4", fi, "field {%d} = %s in %r" %
+                ctx.check(R4, fi, "field {%d} = %s in %r" %
                           (k, norm(arg), spec), has_round or carry,
                           "the value printed with %s is a float remainder in "
                           "[0, 60) that is never quantised before the "
                           "split: 59.995..59.999 prints as 60.00 (e.g. "
                           "+10:59:60.00)" % m.group(0),
                           {"slice": sorted(sl_names)}, c)
-    ctx.floor("C17-R4", n4, 2, "fixed-decimal sexagesimal fields")
+    ctx.floor(R4, n4, 2, "fixed-decimal sexagesimal fields")
     # hours < 24: the reduction modulo 24 h must act on the rounded total
     hms = prog.func("angle_tools.dec2hms")
     rounded = set()
@@ -326,14 +326,14 @@ def sexagesimal(ctx, prog, mod):
         if mv in (24, 24 * 3600 * 100, 24 * 3600, 24 * 60) and \
                 names_in(operand) & rounded:
             ok24 = True
-    ctx.check("C17-R4", hms, "hours reduced modulo 24 after rounding", ok24,
+    ctx.check(R4, hms, "hours reduced modulo 24 after rounding", ok24,
               "an RA within half a printed unit below 360 deg rounds up to "
               "24:00:00.00 unless the hours (or the rounded total) are "
               "reduced modulo 24 h AFTER the rounding; a wrap applied to "
               "the unrounded float does not help", {"rounded": sorted(rounded)},
               hms.node)
     # ---------------------------------------------------------------- R5
-    ctx.rule("C17-R5", "parse/format agreement: ':' separators, sign taken "
+    ctx.rule(R5, "parse/format agreement: ':' separators, sign taken "
              "from a leading '-', RA = hours*15")
     r2d = prog.func("angle_tools.ra2dec")
     rets = [s for s in walk_no_nested(r2d.node) if isinstance(s, ast.Return)]
@@ -341,7 +341,7 @@ def sexagesimal(ctx, prog, mod):
         isinstance(rets[0].value.op, ast.Mult) and \
         {norm(rets[0].value.left), norm(rets[0].value.right)} == \
         {"dec2dec(ra)", "15"}
-    ctx.check("C17-R5", r2d, "ra2dec = dec2dec * 15", ok,
+    ctx.check(R5, r2d, "ra2dec = dec2dec * 15", ok,
               "hours must be converted to degrees with the factor 15",
               node=r2d.node)
     hms = prog.func("angle_tools.dec2hms")
@@ -350,7 +350,7 @@ def sexagesimal(ctx, prog, mod):
                 (isinstance(s, ast.BinOp) and isinstance(s.op, ast.Div) and
                  prog.const_value(mod, s.right) == 15)
                 for s in ast.walk(hms.node))
-    ctx.check("C17-R5", hms, "dec2hms divides degrees by 15", div15,
+    ctx.check(R5, hms, "dec2hms divides degrees by 15", div15,
               "degrees must be converted to hours with the factor 15",
               node=hms.node)
     d2d = prog.func("angle_tools.dec2dec")
@@ -358,7 +358,7 @@ def sexagesimal(ctx, prog, mod):
               and c.func.attr == "startswith" and c.args and
               isinstance(c.args[0], ast.Constant) and c.args[0].value == "-"
               for c in ast.walk(d2d.node))
-    ctx.check("C17-R5", d2d, "sign of '-00:..' taken from the string", neg,
+    ctx.check(R5, d2d, "sign of '-00:..' taken from the string", neg,
               "float('-00') is 0.0 and loses the sign: the leading '-' must "
               "be tested on the string", node=d2d.node)
     rep = any(isinstance(c, ast.Call) and isinstance(c.func, ast.Attribute)
@@ -372,7 +372,7 @@ def sexagesimal(ctx, prog, mod):
                and isinstance(c.func.value, ast.Constant) and
                isinstance(c.func.value.value, str) and
                "{" in c.func.value.value)
-    ctx.check("C17-R5", d2d, "':' separators written and parsed", rep and
+    ctx.check(R5, d2d, "':' separators written and parsed", rep and
               seps, "formatters and parser disagree on the field separator",
               node=d2d.node)
 
